@@ -420,6 +420,12 @@ func TestRegress(t *testing.T) {
 			}
 			f, _ := runGeneric(&c)
 			return true, f
+		case "TestJumbo":
+			var c JumboCase
+			if err := json.Unmarshal(rf.Case, &c); err != nil {
+				t.Fatal(err)
+			}
+			return true, runJumbo(&c)
 		}
 		return false, nil
 	})
